@@ -89,11 +89,28 @@ def execute(prop, plan):
     return dict(digest=log.digest(), violations=viol, stats=stats.to_dict(), log_head=log.head)
 
 
-def _relclose(a, b, tol):
+def _relclose(a, b, tol, scale=None):
+    """|a-b| <= tol * scale, where scale defaults to 1+|b|; for sums of products pass the sum of the
+    absolute terms (cancellation makes |b| itself a misleading yardstick)."""
     a, b = np.asarray(a, dtype=float), np.asarray(b, dtype=float)
     if a.shape != b.shape:
         return False
-    return bool(np.all(np.abs(a - b) <= tol * (1 + np.abs(b))))
+    sc = (1 + np.abs(b)) if scale is None else (1 + np.asarray(scale, dtype=float))
+    return bool(np.all(np.abs(a - b) <= tol * sc))
+
+
+def _abs_theta(t):
+    """The same sample with every parameter replaced by its absolute value: predicting with it gives
+    the sum of absolute terms of each row (the natural floating-point scale of that row's mean)."""
+    import copy
+
+    u = copy.copy(t)
+    for name in ("W", "W0", "V2", "V1", "V0"):
+        if hasattr(u, name):
+            setattr(u, name, np.abs(getattr(t, name)))
+    if hasattr(u, "alpha"):
+        u.alpha = abs(float(t.alpha))
+    return u
 
 
 def _run(plan, log, stats, violation):
@@ -130,6 +147,7 @@ def _run(plan, log, stats, violation):
         return [np.asarray(t.predict_conditional_variance(data), dtype=float) for t in thetas]
 
     whole = {fn: per_sample(fn, screen) for fn in ("mean", "viab", "var")}
+    mag = [np.asarray(_abs_theta(t).predict_conditional_mean(screen), dtype=float) for t in thetas]
     # ---- oracles on every row of the whole screen (reached rows)
     for k, t in enumerate(thetas):
         for i in range(n):
@@ -143,7 +161,7 @@ def _run(plan, log, stats, violation):
                 se = ref.clip(lookup[(sid, tids[0])] * lookup[(sid, tids[1])], 0.01, 0.99)
                 v = ref.clip(math.exp(mu + math.log(se)) if mu + math.log(se) < 700 else math.inf, 0.01, 0.99)
             got_mu, got_v, got_var = whole["mean"][k][i], whole["viab"][k][i], whole["var"][k][i]
-            if not (abs(got_mu - mu) <= 1e-9 * (1 + abs(mu))):
+            if not (abs(got_mu - mu) <= 1e-9 * (1 + abs(mu)) + 1e-12 * mag[k][i]):
                 violation("C09.mean", model, f"sample {k} row {i} ids {(sid, tids)}: mean {got_mu!r}, loop reference {mu!r}")
                 return
             if not (abs(got_v - v) <= 1e-9):
@@ -224,8 +242,8 @@ def _run(plan, log, stats, violation):
                     got = per_sample(f2, twin)
                     for k in range(len(thetas)):
                         stats.oracle_evals += 1
-                        if not _relclose(got[k], whole[f2][k], 1e-12):
-                            i = int(np.argmax(np.abs(got[k] - whole[f2][k])))
+                        if not _relclose(got[k], whole[f2][k], 1e-12, scale=(mag[k] if f2 == "mean" else 0.25 * mag[k])):
+                            i = int(np.argmax(np.abs(got[k] - whole[f2][k]) / (1 + mag[k])))
                             violation("C09.column-order", f"{model}:{f2}",
                                       f"swapping the treatment columns changes sample {k}'s {f2} for row {i} {rows[i][1]}: "
                                       f"{whole[f2][k][i]!r} -> {got[k][i]!r}")
@@ -239,7 +257,7 @@ def _run(plan, log, stats, violation):
                         got = per_sample(f2, twin)
                         for k in range(len(thetas)):
                             stats.oracle_evals += 1
-                            if not _relclose(got[k], whole[f2][k][idx], 1e-12):
+                            if not _relclose(got[k], whole[f2][k][idx], 1e-12, scale=(mag[k][idx] if f2 == "mean" else 0.25 * mag[k][idx])):
                                 j = int(np.argmax(np.abs(got[k] - whole[f2][k][idx])))
                                 violation("C09.control-neutral", f"{model}:{f2}",
                                           f"row {idx[j]} {rows[idx[j]][1]} (a pair with control) predicts {whole[f2][k][idx[j]]!r}; the single "
